@@ -82,6 +82,17 @@ def units(rng, tier):
         p = {"algo": a, "keep": rng.random() < 0.6, "k": rng.choice([2, 3, 3, 4, 5]) if a == "snp" else rng.choice([2, 3, 4, 5])}
         p.update(gen.with_format(rng, vals[:8], rng.choice(["list", "dict_str", "dict_int"])))
         us.append({"kind": "snp_trace", "params": p, "cmp": "trace", "family": a + "-search-trace/" + fam})
+    # the complete-greedy search itself: the number of clock readings of an unlimited run (one per search node; the module's clock is
+    # replaced by a counter) compared with the model's tick count, for every objective and switch vector: a node pruned, skipped or
+    # added by mistake shows here on most inputs, long before it changes an optimum
+    for _ in range(300 if tier == "quick" else 4000):
+        n = rng.randint(5, 9)
+        hi = rng.choice([10, 30, 30, 100])
+        vals = [rng.randint(0 if rng.random() < 0.1 else 1, hi) for _ in range(n)]
+        p = {"keep": rng.random() < 0.6, "k": rng.choice([2, 3, 3, 4, 4, 5]), "objective": rng.choice([[0, 0], [0, 0], [1, 0], [2, 0], [3, 2], [4, 2]]),
+             "flags": [rng.randint(0, 1) for _ in range(4)], "limit": -1}
+        p.update(gen.with_format(rng, vals, rng.choice(["list", "dict_str"])))
+        us.append({"kind": "cg_clock", "params": p, "cmp": "exact", "family": "cg-search-ticks"})
     for vals, k in HARD:
         for a in ("dp", "cg", "ckk", "snp", "rnp", "ilp"):
             v = vals[:6] if a == "dp" else vals
@@ -119,6 +130,17 @@ def judge_requests(u, impl, model):
         return [("py", None, f"ckk did not complete: {impl['exc']} on {p}")] if "exc" in impl else []
     if u["kind"] == "snp_trace":
         return []
+    if u["kind"] == "cg_clock":
+        if "exc" in impl:
+            return [("py", None, f"cg did not complete: {impl['exc']} on {UN.short(p, 200)}")]
+        b = impl.get("best")
+        if b is None:
+            return [("py", None, f"cg without time limit returned no result on {UN.short(p, 200)}")]
+        if len(p["vals"]) > 10:
+            return []
+        o, ok = p["objective"]
+        val = UN.obj_value(o, ok, [s for s, _ in b])
+        return [("opt_value", [o, ok, p["k"], p["vals"]], lambda r: None if r == val else f"cg(numbins={p['k']}, items={p['vals']}, objective {o}/{ok}, switches {p['flags']}) returned objective value {val}, the optimum is {r}")]
     a = p["algo"]
     o, ok = p.get("objective", [2, 0])
     desc = f"{a}(numbins={p['k']}, items={UN.short(p['vals'], 150)}, objective {o}/{ok}, switches {p.get('flags', '-')}, format {p['fmt']}, output {p['out']})"
